@@ -1,6 +1,69 @@
-/-! `pmodel linereader`: line-protocol driver (stub — replaced by the owner of this model). -/
+import PhreeqcVerif.Model.Util
+import PhreeqcVerif.Model.LineReader
+/-! `pmodel linereader`: byte strings → what the model of PHRQ_io::get_line / get_logical_line / read_input predicts.
+ops (hex operands):
+  lines <s>        every get_line result until LT_EOF (format of harness/ph_lines.cpp)
+  logical <s>      every get_logical_line result until LT_EOF, by iterating the per-call function `scan`
+  sims <s>         "S <n> | <lines in sim 1> <lines in sim 2> …"
+  cut <a> <b>      hypotheses and conclusion of the append theorems on a concrete cut:
+                   "B closed=<0|1> end=<0|1> lines_eq=<0|1> sims_eq=<0|1> nsims=<n(a)> <n(b)> <n(a++b)>" -/
 namespace Driver.LineReader
+open PhreeqcVerif PhreeqcVerif.Util PhreeqcVerif.LineReader
 
-def run : IO Unit := IO.eprintln "pmodel linereader: not implemented"
+def bytesOf (h : String) : Option Bytes :=
+  if h = "-" then some [] else (unhexBytes h).map (·.toList)
+
+def hexOf (b : Bytes) : String := if b.isEmpty then "-" else hexBytes (ByteArray.mk b.toArray)
+
+def typeName : LType → String
+  | .ok => "OK" | .keyword _ => "KEYWORD" | .option => "OPTION"
+
+def showLine (l : CLine) : String :=
+  match l.incl with
+  | some f => s!"I {hexOf f}"
+  | none => s!"L {typeName l.ltype} {hexOf l.line} {hexOf l.save} {l.nextKeyword}"
+
+/-- iterate the per-call function (what the C++ caller does); fuel = length + 2 is never exhausted (`scan_consumes`) -/
+def iterScan : Nat → Bytes → List String → List String
+  | 0, _, acc => acc ++ ["FUEL"]
+  | n + 1, s, acc =>
+    let r := scan s
+    if r.isEOF then acc ++ ["GEOF"] else iterScan n r.rest (acc ++ [s!"G {hexOf r.line}"])
+
+def b2s (b : Bool) : String := if b then "1" else "0"
+
+def handle (line : String) : List String :=
+  match words line with
+  | ["lines", h] =>
+    match bytesOf h with
+    | some s => (readLines s).map showLine ++ [s!"EOF {Gen.Keywords.keyEnd}", "R done"]
+    | none => ["bad-hex"]
+  | ["logical", h] =>
+    match bytesOf h with
+    | some s => let d := decode s; iterScan (d.length + 2) d [] ++ ["R done"]
+    | none => ["bad-hex"]
+  | ["sims", h] =>
+    match bytesOf h with
+    | some s => let ss := simulations s
+                [s!"S {ss.length} |" ++ String.join (ss.map fun x => s!" {x.length}")]
+    | none => ["bad-hex"]
+  | ["cut", ha, hb] =>
+    match bytesOf ha, bytesOf hb with
+    | some a, some b =>
+      let le := logicalLines (a ++ b) == logicalLines a ++ logicalLines b
+      let se := simulations (a ++ b) == simulations a ++ simulations b
+      [s!"B closed={b2s (closed a)} end={b2s (endBoundary a)} lines_eq={b2s le} sims_eq={b2s se} nsims={(simulations a).length} {(simulations b).length} {(simulations (a ++ b)).length}"]
+    | _, _ => ["bad-hex"]
+  | [] => []
+  | _ => ["bad-op"]
+
+def run : IO Unit := do
+  let stdin ← IO.getStdin
+  let stdout ← IO.getStdout
+  let lines ← readLines stdin
+  for l in lines do
+    for o in handle l do
+      stdout.putStrLn o
+  stdout.flush
 
 end Driver.LineReader
